@@ -848,16 +848,14 @@ def middleware_rule(chk, repo):
         snodes = [n_ for n_ in g_.nodes if n_.in_finally_copy is None and isinstance(getattr(n_, "ast", None), ast.AST) and any(a is s_ or any(x is s_ for x in ast.walk(n_.ast)) for s_ in sends for a in [n_.ast])]
         relnodes = [n_ for n_ in g_.nodes if isinstance(getattr(n_, "ast", None), ast.AST) and n_.kind == "stmt" and any(
             isinstance(c.func, ast.Attribute) and c.func.attr in ("release", "close") and isinstance(c.func.value, ast.Name) for c in K.node_calls(n_))]
-        lv = {x.id for x in ast.walk(lp.target) if isinstance(x, ast.Name)} if isinstance(lp, ast.For) else set()
-        def which_iteration(a, b, k):
-            # a test of the loop variable alone says which iteration this is; its branch that releases nothing is the last iteration
-            if not (a.kind == "test" and k in ("T", "F") and lv and {x.id for x in ast.walk(a.ast) if isinstance(x, ast.Name)} <= lv):
-                return False
-            if b in relnodes:
-                return False
-            return g_.find_path([b], lambda n_: n_ in relnodes, lambda n_: n_ in snodes, EXPLICIT) is None
         snodes = [n_ for n_ in snodes if any(x is lp for x in prog.enclosing(n_.ast, (ast.For, ast.While)))]
-        again = K.find_path_edges(g_, snodes, lambda n_: n_ in snodes, lambda n_: n_ in relnodes, which_iteration, EXPLICIT) if snodes else None
+        # one examination per iteration that is followed by another one (`for retry_count in range(2)`: retry_count = 0); tests of the loop
+        # variable are decided by its value
+        vals = K.repeating_values(lp) if isinstance(lp, ast.For) else None
+        again = None
+        for v in (vals if vals is not None else [None]):
+            edge = K.iteration_edges(lp, v) if v is not None else (lambda a, b, k: False)
+            again = again or (K.find_path_edges(g_, snodes, lambda n_: n_ in snodes, lambda n_: n_ in relnodes, edge, EXPLICIT) if snodes else None)
         rel = [n_.ast for n_ in relnodes] if (snodes and relnodes and again is None) else []
         if rel:
             chk.ok("C07.middleware", rel[0], "the digest middleware releases the challenge response before it sends the request again")
